@@ -4,7 +4,7 @@ import math
 
 from common import Fr, fq, dec, lean_query
 import impl
-from tracers import ApiTracer, LABELS, dlpoly_tokens, dlpoly_raw, FormatError, real_potential
+from tracers import eval_noise, ApiTracer, LABELS, dlpoly_tokens, dlpoly_raw, FormatError, real_potential
 from props.C01 import first_diff
 
 from atsim.potentials import Potential, writePotentials
@@ -191,7 +191,7 @@ def real_stream(run):
                 ev, slope = f(r), dref(r)
                 if slope is None:
                     continue
-                if not close(vals[k - 1], ev, extra=abs(slope) * 4 * math.ulp(r)):
+                if not close(vals[k - 1], ev, extra=abs(slope) * 4 * math.ulp(r) + 2 * eval_noise(f, r)):
                     problem = "%s: energy %d printed %s, V(k*delpot)=%r" % (desc, k, vals[k - 1], ev)
                     break
                 ref = -r * slope
